@@ -635,12 +635,17 @@ def diff_slots(snap_a, snap_b, names, skip_inputs_of=None):
             if va[0] == "D" or vb[0] == "D":
                 da = va[1] if va[0] == "D" else {}
                 db = vb[1] if vb[0] == "D" else {}
-                if set(da) != set(db):
+                # an entry that holds "no value" is numerically the same as no entry (a list mutation recomputes the jobs
+                # while the usage patterns of the mutated list are still registered: the job then gets an empty entry for a
+                # usage pattern that no longer reaches it)
+                one_sided = [k for k in sorted(set(da) ^ set(db))
+                             if not values_equal(da.get(k, ("E",)), db.get(k, ("E",)), atol=atol)]
+                if one_sided:
                     out.append([n, a, "#"])
                 for k in sorted(set(da) & set(db)):
                     if not values_equal(da[k], db[k], atol=atol):
                         out.append([n, a, k])
-                for k in sorted(set(da) ^ set(db)):
+                for k in one_sided:
                     out.append([n, a, k])
             elif not values_equal(va, vb, atol=atol):
                 out.append([n, a, "-"])
